@@ -881,6 +881,9 @@ func runC05(c *vx.Ctx) {
 	if c.Wants("reach") && (c.Thorough() || c.Only == "reach") {
 		c05RunReach(c, envs) // 65537 real precompile calls (~7 s per run, x6 when a violation is confirmed): thorough tier only
 	}
+	if c.Wants("block") {
+		c05RunBlock(c) // last: scales the mininode's protocol constants
+	}
 }
 
 func c05Short(regime string) string {
@@ -896,6 +899,18 @@ func replayC05(c *vx.Ctx, v vx.Violation) string {
 		return "harness: " + err.Error()
 	}
 	raw, _ := jsonMarshal(v.Replay)
+	if v.Part == "block" {
+		core.VScaleParams(core.VR1)
+		var b c05BlockCase
+		if err := jsonUnmarshal(raw, &b); err != nil {
+			return "bad replay: " + err.Error()
+		}
+		_, d, _, h := c05BlockRun(b)
+		if h != "" {
+			return "harness: " + h
+		}
+		return d
+	}
 	if v.Part == "tx" {
 		var t c05TxCase
 		if err := jsonUnmarshal(raw, &t); err != nil {
